@@ -213,6 +213,12 @@ func runCheck(prop string, opt *Options) int {
 			if opt.Only != "" && !strings.Contains(c2.Key, opt.Only) {
 				continue
 			}
+			// only the functions that the tag replaces: those without a Go body in the default build
+			if p0 := u.Pkgs[c2.PkgPath]; p0 != nil {
+				if fd0, _ := findFunc(p0, c2.Key); fd0 != nil && fd0.Body != nil {
+					continue
+				}
+			}
 			for _, r := range u2.verifyContractAll(c2) {
 				r.Name += "[tag " + tag + "]"
 				for _, o := range r.Obls {
